@@ -93,7 +93,7 @@ let () =
     | _ -> { !cfg with fix_f7 = true; fix_f14 = false; fix_f7b = true } in
   let tin = ref tinit0 in
   (* descriptors the TightVNC extension lost (TLostFd), per tight variant: they show at teardown *)
-  let ntv = 5 in
+  let ntv = 6 in   (* five TightVNC message-flow variants + the tree's flow with the gate of notes/fix_C19_6.diff *)
   let tlost = Array.make ntv 0 in
   let i = ref 0 in
   let take_env () =
@@ -169,27 +169,39 @@ let () =
        tin := st;
        let r = string_of_bytes st.t_root in
        let sl = String.length sbp in
-       if String.length r >= sl && String.sub r 0 sl = sbp
-       then Printf.printf "tinit enabled=%s root=@ %s\n" (b2s st.t_enabled) (hex_of_bytes (bytes_of_string (String.sub r sl (String.length r - sl))))
-       else Printf.printf "tinit enabled=%s root== %s\n" (b2s st.t_enabled) (hex_of_bytes st.t_root)
+       (* the tree: IsFileTransferEnabled() = the flag; alt1 = with notes/fix_C19_6.diff: the flag && a root was accepted *)
+       let line fx =
+         if String.length r >= sl && String.sub r 0 sl = sbp
+         then Printf.sprintf "tinit enabled=%s root=@ %s" (b2s (t_effective fx st)) (hex_of_bytes (bytes_of_string (String.sub r sl (String.length r - sl))))
+         else Printf.sprintf "tinit enabled=%s root== %s" (b2s (t_effective fx st)) (hex_of_bytes st.t_root) in
+       print_endline (line false);
+       if line true <> line false then print_endline ("alt1 " ^ line true)
      | "tight" :: en0 :: vo :: suf :: rest ->
        let _ = take_env () in
        print_endline "tight";
        let keep = (en0 = "keep") in
-       let en = if keep then (if !tin.t_enabled then "1" else "0") else en0 in
+       let en = if keep then (if t_effective false !tin then "1" else "0") else en0 in
+       let en_fx = if keep then (if t_effective true !tin then "1" else "0") else en0 in
        let ftproot = if keep then !tin.t_root else bytes_of_string (root ^ "/sb" ^ unhex suf) in
        (* results of creat() recorded from the implementation run: last token "creat:<digits>" *)
-       let (pairs, creats) =
-         match List.rev rest with
-         | c :: r when String.length c >= 6 && String.sub c 0 6 = "creat:" ->
-           (List.rev r, String.sub c 6 (String.length c - 6))
-         | _ -> (rest, "") in
+       let has_pfx p t = String.length t >= String.length p && String.sub t 0 (String.length p) = p in
+       let tail p t = String.sub t (String.length p) (String.length t - String.length p) in
+       let creats = (match List.filter (has_pfx "creat:") rest with t :: _ -> tail "creat:" t | [] -> "") in
+       (* what readdir() returned in the implementation run, per message: "ents:" groups separated by ';', names by ',' *)
+       let ents = (match List.filter (has_pfx "ents:") rest with
+           | t :: _ -> Array.of_list (List.map (fun g -> List.filter (fun x -> x <> "") (String.split_on_char ',' g))
+                                        (String.split_on_char ';' (tail "ents:" t)))
+           | [] -> [||]) in
+       let pairs = List.filter (fun t -> not (has_pfx "creat:" t) && not (has_pfx "ents:" t)) rest in
+       let mi = ref (-1) in
+       let entries () = if !mi < Array.length ents then List.map hb ents.(!mi) else [] in
        let ci = ref 0 in
        let next_creat () = let r = (!ci < String.length creats && creats.[!ci] = '1') in incr ci; r in
        let rec msgs = function
          | kind :: arg :: tl ->
+           incr mi;
            let m = (match kind with
-             | "list" -> Some (TList (hb arg, [])) | "mkdir" -> Some (TMkdir (hb arg))
+             | "list" -> Some (TList (hb arg, entries ())) | "mkdir" -> Some (TMkdir (hb arg))
              | "uploadtrunc" -> Some (TUploadTrunc (hb arg)) | "teardown" -> Some TClose
              | "download" -> Some (TDownload (hb arg))
              | "upload" -> Some (TUpload (hb arg, true))
@@ -208,12 +220,13 @@ let () =
          | TOpenR p -> "fs openr " ^ hex_of_bytes p | TCreat p -> "fs creat " ^ hex_of_bytes p
          | TUtime p -> "fs utime " ^ hex_of_bytes p | TUnlink p -> "fs unlink " ^ hex_of_bytes p
          | TMkdirOp p -> "fs mkdir " ^ hex_of_bytes p
-         | TStatEntry (d, n) -> "fs stat " ^ hex_of_bytes d ^ "2f" ^ hex_of_bytes n
+         | TStatEntry (d, n) -> "fs stat " ^ hex_of_bytes (join_dir d n)
          | TOverflow -> "overflow" | TLostFd -> "lostfd" in
        let gate = tight_gate true (en = "1") (vo = "1") in
        (* variant 0 = the tree; regression variants: 1 = before fb3fc0a and 2214ab9, 2 = before fb3fc0a, 3 = before 2214ab9,
           4 = before 7654ac8 *)
-       let vs = [| v_tight_tree; v_tight_pre45; v_tight_pre4; v_tight_pre5; v_tight_prefix |] in
+       let vs = [| v_tight_tree; v_tight_pre45; v_tight_pre4; v_tight_pre5; v_tight_prefix; v_tight_tree |] in
+       let gates = Array.init ntv (fun k -> if k = 5 then tight_gate true (en_fx = "1") (vo = "1") else gate) in
        let sts = Array.make ntv tstate0 in
        List.iter (fun (kind, m) ->
            print_endline ("m " ^ kind);
@@ -227,7 +240,7 @@ let () =
                    if List.exists (function TCreat _ -> true | _ -> false) ops then TUpload (n, next_creat ()) else m0
                  | x -> x) in
              let outs = Array.init ntv (fun k ->
-                 let (o, s') = tight_step_g vs.(k) ftproot sts.(k) (gate, m1) in
+                 let (o, s') = tight_step_g vs.(k) ftproot sts.(k) (gates.(k), m1) in
                  sts.(k) <- s';
                  tlost.(k) <- tlost.(k) + List.length (List.filter (fun x -> x = TLostFd) o);
                  List.map op_line (List.filter (fun x -> x <> TLostFd) o)) in
